@@ -46,6 +46,7 @@ type inlineState struct {
 	temps   int
 	changed bool
 
+	curNRes     int // number of results of the function whose body is being processed
 	closures    map[*types.Var]*FuncDecl
 	closureDefs map[*types.Var]int
 }
@@ -173,6 +174,7 @@ func (p *Program) Inlined(fd *FuncDecl) *FuncDecl {
 	p.inlined[fd.Obj] = fd // recursion guard / default
 	st := &inlineState{p: p, root: fd, info: fd.Pkg.TypesInfo, stack: map[*types.Func]bool{fd.Obj: true}, count: map[*types.Func]int{}, budget: inlineMaxStmts}
 	body := st.cloneNode(fd.Decl.Body).(*ast.BlockStmt)
+	st.curNRes = fd.Obj.Type().(*types.Signature).Results().Len()
 	st.block(body, 0)
 	st.normalise(body)
 	if !st.changed {
@@ -752,13 +754,20 @@ func (st *inlineState) bind(call *ast.CallExpr, cfd *FuncDecl, subst map[*types.
 func (st *inlineState) expand(call *ast.CallExpr, cfd *FuncDecl, depth int, tail bool, targets []ast.Expr, tok token.Token) ([]ast.Stmt, []ast.Expr, bool) {
 	fn := cfd.Obj
 	st.count[fn]++
+	if st.p.wasInlined == nil {
+		st.p.wasInlined = map[*types.Func]bool{}
+	}
+	st.p.wasInlined[fn] = true
 	st.stack[fn] = true
 	defer delete(st.stack, fn)
 	body := st.cloneNode(cfd.Decl.Body).(*ast.BlockStmt)
 	st.budget -= len(body.List)
 	sig := fn.Type().(*types.Signature)
 	subst := st.substitute(call, cfd, body)
+	saveN := st.curNRes
+	st.curNRes = sig.Results().Len()
 	st.block(body, depth+1)
+	st.curNRes = saveN
 	st.normalise(body)
 	pre := st.bind(call, cfd, subst)
 	// named results are ordinary locals of the callee
@@ -1093,8 +1102,8 @@ func (st *inlineState) stmt(s ast.Stmt, depth int) []ast.Stmt {
 	case *ast.ReturnStmt:
 		if len(x.Results) == 1 {
 			if call, ok := ast.Unparen(x.Results[0]).(*ast.CallExpr); ok {
-				if cfd := st.callee(call, depth); cfd != nil && depth == 0 &&
-					cfd.Obj.Type().(*types.Signature).Results().Len() == st.root.Obj.Type().(*types.Signature).Results().Len() {
+				if cfd := st.callee(call, depth); cfd != nil &&
+					cfd.Obj.Type().(*types.Signature).Results().Len() == st.curNRes {
 					pre := st.hoistArgs(call, depth)
 					ss, _, ok := st.expand(call, cfd, depth, true, nil, token.ILLEGAL)
 					if ok {
